@@ -12,6 +12,7 @@ package discov
 
 import (
 	"context"
+	"errors"
 	"fmt"
 	"reflect"
 	"sort"
@@ -49,6 +50,64 @@ type VerifEtcd struct {
 	grants    int
 	puts      int
 	revokes   int
+	// fault injection (publisher harness): the next n calls of the kind fail
+	failGrant, failPut, failKA, failRevoke int
+	expired                                int
+}
+
+// errVerifFault is what an armed call returns (etcd unreachable)
+var errVerifFault = errors.New("verif: etcdserver: request timed out")
+
+// ArmFault makes the next n calls of the kind (grant | put | ka | revoke) fail.
+func (e *VerifEtcd) ArmFault(kind string, n int) {
+	e.mu.Lock()
+	defer e.mu.Unlock()
+	switch kind {
+	case "grant":
+		e.failGrant = n
+	case "put":
+		e.failPut = n
+	case "ka":
+		e.failKA = n
+	case "revoke":
+		e.failRevoke = n
+	default:
+		panic("verif: unknown fault kind " + kind)
+	}
+}
+
+// PendingFaults: armed failures that have not happened yet.
+func (e *VerifEtcd) PendingFaults() int {
+	e.mu.Lock()
+	defer e.mu.Unlock()
+	return e.failGrant + e.failPut + e.failKA + e.failRevoke
+}
+
+// ExpireOrphans: etcd expires every lease that is not in `alive` (nobody renews it): its keys are deleted and the
+// watchers are told.  Returns the number of keys deleted.
+func (e *VerifEtcd) ExpireOrphans(alive map[clientv3.LeaseID]bool) int {
+	e.order.Lock()
+	defer e.order.Unlock()
+	e.mu.Lock()
+	var keys []string
+	for k, st := range e.store {
+		if !alive[st.lease] {
+			keys = append(keys, k)
+		}
+	}
+	sort.Strings(keys)
+	for _, k := range keys {
+		delete(e.store, k)
+	}
+	e.rev++
+	e.mu.Unlock()
+	for _, k := range keys {
+		e.deliver(k, &clientv3.Event{Type: clientv3.EventTypeDelete, Kv: &mvccpb.KeyValue{Key: []byte(k)}})
+	}
+	e.mu.Lock()
+	e.expired += len(keys)
+	e.mu.Unlock()
+	return len(keys)
 }
 
 type verifStored struct {
@@ -126,6 +185,10 @@ func (e *VerifEtcd) Get(_ context.Context, key string, opts ...clientv3.OpOption
 func (e *VerifEtcd) Grant(context.Context, int64) (*clientv3.LeaseGrantResponse, error) {
 	e.mu.Lock()
 	defer e.mu.Unlock()
+	if e.failGrant > 0 {
+		e.failGrant--
+		return nil, errVerifFault
+	}
 	e.nextLease++
 	e.grants++
 	return &clientv3.LeaseGrantResponse{ID: clientv3.LeaseID(VerifLeaseBase + e.nextLease), TTL: 10}, nil
@@ -134,8 +197,12 @@ func (e *VerifEtcd) Grant(context.Context, int64) (*clientv3.LeaseGrantResponse,
 func (e *VerifEtcd) KeepAlive(_ context.Context, id clientv3.LeaseID) (<-chan *clientv3.LeaseKeepAliveResponse, error) {
 	ch := make(chan *clientv3.LeaseKeepAliveResponse)
 	e.mu.Lock()
+	defer e.mu.Unlock()
+	if e.failKA > 0 {
+		e.failKA--
+		return nil, errVerifFault
+	}
 	e.kaChans[id] = ch
-	e.mu.Unlock()
 	return ch, nil
 }
 
@@ -173,6 +240,11 @@ func (e *VerifEtcd) Put(_ context.Context, key, val string, opts ...clientv3.OpO
 	e.order.Lock()
 	defer e.order.Unlock()
 	e.mu.Lock()
+	if e.failPut > 0 {
+		e.failPut--
+		e.mu.Unlock()
+		return nil, errVerifFault
+	}
 	e.store[key] = verifStored{val, lease}
 	e.rev++
 	e.mu.Unlock()
@@ -187,6 +259,11 @@ func (e *VerifEtcd) Revoke(_ context.Context, id clientv3.LeaseID) (*clientv3.Le
 	e.order.Lock()
 	defer e.order.Unlock()
 	e.mu.Lock()
+	if e.failRevoke > 0 {
+		e.failRevoke--
+		e.mu.Unlock()
+		return nil, errVerifFault
+	}
 	var keys []string
 	for k, st := range e.store {
 		if st.lease == id {
@@ -215,15 +292,18 @@ func (e *VerifEtcd) Counts() (int, int, int) {
 	return e.grants, e.puts, e.revokes
 }
 
-// AwaitCounts waits until at least the given numbers of puts and revokes have completed; false: timeout.
+// AwaitCounts waits until at least the given numbers of puts and revokes have completed and every armed fault has
+// happened; false: timeout.  The timeout is counted in polls of 2 ms, not in wall-clock time: while the test process is
+// not scheduled (a loaded machine) no poll happens, whereas the publisher's one-second ticker keeps firing — so a tick
+// that is due is never missed because the machine was busy.
 func (e *VerifEtcd) AwaitCounts(puts, revokes int, max time.Duration) bool {
-	deadline := time.Now().Add(max)
-	for {
+	polls := int(max / (2 * time.Millisecond))
+	for i := 0; ; i++ {
 		_, p, r := e.Counts()
-		if p >= puts && r >= revokes {
+		if p >= puts && r >= revokes && e.PendingFaults() == 0 {
 			return true
 		}
-		if time.Now().After(deadline) {
+		if i >= polls {
 			return false
 		}
 		time.Sleep(2 * time.Millisecond)
@@ -305,6 +385,7 @@ func (e *VerifEtcd) DropWatches() {
 	e.prefixed = map[string]bool{}
 	e.store = map[string]verifStored{}
 	e.kaChans = map[clientv3.LeaseID]chan *clientv3.LeaseKeepAliveResponse{}
+	e.failGrant, e.failPut, e.failKA, e.failRevoke = 0, 0, 0, 0
 	e.mu.Unlock()
 }
 
